@@ -248,6 +248,9 @@ func (ch c05) Run(c *core.Ctx) {
 	if c.Begin(90000000) {
 		ch.nulTexts(c, env)
 	}
+	if c.Begin(90000001) {
+		ch.endedSession(c)
+	}
 	var cl *hs.Client
 	var sess *hs.Sess
 	onConn := 0
@@ -705,5 +708,91 @@ func (ch c05) nulTexts(c *core.Ctx, env *hs.Env) {
 		}
 		cl.Finish()
 		c.Eval(fmt.Sprintf("nul %d", i), true)
+	}
+}
+
+// endedSession: the embedding program ends the context it gave the session (session middleware) - before a
+// Query arrives, or from inside the first or second statement of a three-statement Query. Whatever the
+// server makes of the statements after that (runs them, refuses them), the cycle keeps its shape: results
+// or one ErrorResponse, then exactly one ReadyForQuery as the last message, the connection stays, and the
+// next Query gets its cycle too.
+func (ch c05) endedSession(c *core.Ctx) {
+	env := hs.Start(hs.Parse, hs.EndableSessions())
+	defer env.Stop()
+	for v := 0; v < 8; v++ {
+		sess := &hs.Sess{Progs: map[string]*hs.Prog{}}
+		cl := hs.NewClient(env.Dial(sess))
+		if err := cl.StartupOK("u"); err != nil || sess.EndSession == nil {
+			c.Inconclusive("C05 ended-session part: start-up failed or the session middleware did not run")
+			return
+		}
+		stmt := func(id string, cols int, end bool) *hs.Stmt {
+			st := &hs.Stmt{ID: id}
+			if cols > 0 {
+				st.Cols = textCols(cols)
+				vals := make([]any, cols)
+				for i := range vals {
+					vals[i] = id
+				}
+				st.Ops = append(st.Ops, hs.Op{K: "row", Vals: vals})
+			}
+			if end {
+				st.Ops = append(st.Ops, hs.Op{K: "call", Fn: sess.EndSession})
+			}
+			st.Ops = append(st.Ops, hs.Op{K: "complete", Tag: "SELECT 1"})
+			return st
+		}
+		what := ""
+		switch v % 4 {
+		case 0:
+			what = "the context ends before a Query of one statement with a column arrives"
+			sess.Progs["q"] = &hs.Prog{Stmts: []*hs.Stmt{stmt("a", 1, false)}}
+			sess.EndSession()
+		case 1:
+			what = "the first of three statements ends the context"
+			sess.Progs["q"] = &hs.Prog{Stmts: []*hs.Stmt{stmt("a", 1, true), stmt("b", 2, false), stmt("c", 1, false)}}
+		case 2:
+			what = "the second of three statements ends the context"
+			sess.Progs["q"] = &hs.Prog{Stmts: []*hs.Stmt{stmt("a", 0, false), stmt("b", 1, true), stmt("c", 3, false)}}
+		case 3:
+			what = "the context ends before a Query of three statements arrives"
+			sess.Progs["q"] = &hs.Prog{Stmts: []*hs.Stmt{stmt("a", 0, false), stmt("b", 1, false), stmt("c", 0, false)}}
+			sess.EndSession()
+		}
+		sess.Progs["next"] = &hs.Prog{Stmts: []*hs.Stmt{stmt("n", 1, false)}}
+		cs := map[string]any{"ended_session_variant": v, "what": what}
+		for step, q := range []string{"q", "next"} {
+			var out []byte
+			var closed bool
+			if v >= 4 && step == 0 {
+				out, closed = cl.Step(append(pg.Query(q), pg.Query("next")...)) // both Queries in one segment
+			} else if v >= 4 {
+				break
+			} else {
+				out, closed = cl.Step(pg.Query(q))
+			}
+			if hangCheck(c, cl, cs) {
+				return
+			}
+			msgs, err := parseAll(out)
+			r := pg.Types(msgs)
+			c.Count("query_cycles_after_the_session_context_ended", 1)
+			wantZ := 1
+			if v >= 4 {
+				wantZ = 2
+			}
+			ok := err == nil && !closed && strings.Count(r, "Z") == wantZ && strings.HasSuffix(r, "Z")
+			for _, cyc := range strings.SplitAfter(r, "Z") {
+				if strings.Count(cyc, "E") > 1 || (strings.Contains(cyc, "E") && !strings.HasSuffix(cyc, "EZ")) {
+					ok = false
+				}
+			}
+			if !ok {
+				c.Violate("ended-session", "simple Query cycle loses its shape once the session's context has ended ("+what+")", fmt.Sprintf("query %q: reply %q, connection closed=%v, %v; want results or one ErrorResponse, then one ReadyForQuery, per Query", q, r, closed, err), cs)
+				return
+			}
+		}
+		c.Eval(fmt.Sprintf("ended session %d", v), true)
+		cl.Finish()
 	}
 }
